@@ -1515,7 +1515,7 @@ pub fn run(a: &Args) {
     std::fs::write(
         format!("{}/sysdiff.summary.json", a.out),
         format!(
-            "{{\"engine\": \"sysdiff\", \"code_classes\": {{\"1\": \"model-disagreement\", \"2\": \"late-bound-stale\", \"3\": \"non-reloadable-rewritten\", \"4\": \"stale-after-pass\"}}, \"evaluations\": {}, \"distinct_nontrivial\": {}, \"samples\": [{}], \"distribution\": {{\"frontends\": {}, \"ops\": {}, \"sequence_length_buckets\": {}, \"outcomes\": {}, \"reload_passes_that_visited_assets\": {}}}}}",
+            "{{\"engine\": \"sysdiff\", \"explain\": {{\"sys_cases\": \"sys_explain\"}}, \"code_classes\": {{\"1\": \"model-disagreement\", \"2\": \"late-bound-stale\", \"3\": \"non-reloadable-rewritten\", \"4\": \"stale-after-pass\"}}, \"evaluations\": {}, \"distinct_nontrivial\": {}, \"samples\": [{}], \"distribution\": {{\"frontends\": {}, \"ops\": {}, \"sequence_length_buckets\": {}, \"outcomes\": {}, \"reload_passes_that_visited_assets\": {}}}}}",
             n_cases,
             distinct,
             samples.join(", "),
